@@ -183,3 +183,16 @@ def eval_model(suite, input_term, timeout=300):
         return prettify(out.strip())
     finally:
         shutil.rmtree(scratch, ignore_errors=True)
+
+
+def eval_expr(suite, defs: str, expr: str, timeout=300):
+    """Evaluate an arbitrary expression in the suite's environment (debugging / replay detail)."""
+    scratch = Path(tempfile.mkdtemp(prefix='tcverif-expr-'))
+    try:
+        f = scratch / 'expr.v'
+        body = HEADER.format(imports=suite.imports, prelude=suite.prelude) + defs + f'\nEval vm_compute in ({expr}).\n'
+        f.write_text(body)
+        rc, out = _run_coqc(f, timeout)
+        return prettify(out.strip())
+    finally:
+        shutil.rmtree(scratch, ignore_errors=True)
